@@ -264,6 +264,7 @@ pub fn run(ctx: &Ctx) -> Report {
     let prefixes = [Prefix::None, Prefix::AfterReset, Prefix::Walk, Prefix::Spikes, Prefix::AltDecades, Prefix::Short(1), Prefix::Short(2)];
     let big: &[usize] = if ctx.quick() { &[14, 50] } else { &[14, 50, 200, 512] };
     let mut idx = 0u64;
+    let reps = ctx.pick(3, 60);
     for kind in ALL_KINDS {
         let mut periods: Vec<usize> = if kind.n_periods() == 0 { vec![1] } else { (1..=8).collect() };
         if kind.n_periods() > 0 {
@@ -276,8 +277,10 @@ pub fn run(ctx: &Ctx) -> Report {
                         if !bars && !kind.has_scalar() {
                             continue;
                         }
-                        idx += 1;
-                        jobs.push((kind, n, *prefix, *level, bars, idx, pi + li));
+                        for _rep in 0..reps {
+                            idx += 1;
+                            jobs.push((kind, n, *prefix, *level, bars, idx, pi + li));
+                        }
                     }
                 }
             }
